@@ -73,6 +73,7 @@ static LSEED: AtomicU64 = AtomicU64::new(1);
 static LIVE_BLOCKS: AtomicUsize = AtomicUsize::new(0);
 static LIVE_BYTES: AtomicUsize = AtomicUsize::new(0);
 static ALLOC_COUNT: AtomicUsize = AtomicUsize::new(0);
+static ALLOC_BYTES: AtomicUsize = AtomicUsize::new(0);
 static FREE_COUNT: AtomicUsize = AtomicUsize::new(0);
 static DIGEST: AtomicU64 = AtomicU64::new(0xcbf29ce484222325);
 static NTOUCHED: AtomicUsize = AtomicUsize::new(0);
@@ -170,6 +171,7 @@ unsafe impl GlobalAlloc for SimAlloc {
             return System.alloc(l);
         }
         ALLOC_COUNT.fetch_add(1, Relaxed);
+        ALLOC_BYTES.fetch_add(l.size(), Relaxed);
         let npages = (l.size().max(1) + PAGE - 1) / PAGE;
         if !(READY.load(Relaxed) && ARENA_ON.load(Relaxed)) || npages > MAX_BLOCK_PAGES || l.align() > PAGE {
             COUNT_ONLY_LIVE.fetch_add(1, Relaxed);
@@ -406,6 +408,10 @@ pub fn live_blocks() -> usize {
 }
 pub fn live_bytes() -> usize {
     LIVE_BYTES.load(Relaxed)
+}
+/// bytes requested by library-side code since the start of the process
+pub fn alloc_bytes() -> usize {
+    ALLOC_BYTES.load(Relaxed)
 }
 pub fn alloc_count() -> usize {
     ALLOC_COUNT.load(Relaxed)
